@@ -128,6 +128,10 @@ func extFilters(c *Ctx, f *ssa.Function) []*ssa.If {
 			if v == c.constVal("CompressedChunkExt") || v == c.constVal("UncompressedChunkExt") {
 				out = append(out, iff)
 			}
+		} else if onlyOrigins(ext, func(o string) bool {
+			return o == "const:"+c.constVal("CompressedChunkExt") || o == "const:"+c.constVal("UncompressedChunkExt")
+		}) {
+			out = append(out, iff) // extension chosen into a variable first
 		}
 	}
 	return out
@@ -159,6 +163,32 @@ func c16FormatFilter(c *Ctx) {
 		for i, iff := range filters {
 			key := fmt.Sprintf("%s:ext-filter%d", fnKey(f), i+1)
 			call := stripNot(iff.Cond).(*ssa.Call)
+			if phi, isPhi := call.Call.Args[1].(*ssa.Phi); isPhi {
+				// data-dependent form: ext := <compressed>; if Uncompressed { ext = <uncompressed> }
+				unc, cmpE := optionEdges(f)
+				okPhi := len(unc) > 0
+				for k, e := range phi.Edges {
+					kc, isK := e.(*ssa.Const)
+					if !isK || kc.Value == nil {
+						okPhi = false
+						continue
+					}
+					in := edge{phi.Block().Preds[k], phi.Block()}
+					side := cmpE
+					if kc.Value.ExactString() == uncomp {
+						side = unc
+					}
+					if side[in] {
+						continue
+					}
+					// the predecessor must be reachable only through that side
+					if reachable(f, side)[in.from] {
+						okPhi = false
+					}
+				}
+				c.verdict(okPhi, key, call.Pos(), "the tested extension is selected by the Uncompressed option (variable form)", "the extension tested by the filter is not selected by the store's Uncompressed option")
+				continue
+			}
 			ext := call.Call.Args[1].(*ssa.Const).Value.ExactString()
 			// remove both out-edges of every option test: the filter must become unreachable
 			removed := map[edge]bool{}
